@@ -545,3 +545,20 @@ pub fn run() {
   run.assume("trees deeper than 3 and names outside the bound single-word set are outside the bound (C10 covers names)");
   run.finish();
 }
+
+pub fn replay_case(case: &serde_json::Value) -> String {
+  let txt = case.get("text").and_then(|t| t.as_str()).unwrap_or("");
+  let scope = parse_scope_of(&parse_names());
+  let got = match parse_expression(&scope, txt, false) {
+    Ok(n) => format!("{:?}", n),
+    Err(e) => format!("error: {}", e),
+  };
+  match case.get("expected").and_then(|e| e.as_str()) {
+    Some(exp) if exp == got => format!("PASS `{}` parses to {}", txt, got),
+    Some(exp) => format!("FAIL `{}` parses to {} but the tree it was rendered from is {}", txt, got, exp),
+    None => match case.get("expected_not").and_then(|e| e.as_str()) {
+      Some(exp) if exp == got => format!("FAIL `{}` still parses to {}", txt, got),
+      _ => format!("OBSERVED `{}` parses to {}", txt, got),
+    },
+  }
+}
